@@ -194,3 +194,68 @@ Example hooi_trace_ex : map code (hooi_trace InitSvd 2 false true 5 [false; fals
 Proof. vm_compute. reflexivity. Qed.
 Example tucker_fixed_trace_ex : map code (tucker_fixed_trace 3 1 false false 1 []) = [3; 10; 100; 11; 101; 2; 2].
 Proof. vm_compute. reflexivity. Qed.
+
+(* ------------------------------------------------------------------ the loop as data: every program satisfying prog_ok keeps the contract *)
+Section ProgProofs.
+  Variable St : Type.
+  Variables (svd_init impute project recon : St -> St) (update : nat -> St -> St).
+  Variable CoreProj : St -> Prop.
+  Hypothesis Hproject : forall s, CoreProj (project s).
+  Hypothesis Hrecon : forall s, CoreProj s -> CoreProj (recon s).
+  Lemma run_body_ok k mask tol_set it d : forall l clean s, scan clean l = true -> (clean = true -> CoreProj s) ->
+    CoreProj (fst (run_body St impute project recon update k mask tol_set it d l s)).
+  Proof.
+    induction l as [|st l IH]; intros clean s Hs Hc; simpl in *.
+    - apply Hc, Hs.
+    - destruct st as [| | | |c g]; simpl in Hs.
+      + apply (IH false); [exact Hs | discriminate].
+      + apply (IH false); [exact Hs | discriminate].
+      + apply (IH true); [exact Hs | intros _; apply Hproject].
+      + apply (IH clean); [exact Hs | intros E; destruct mask; simpl; auto].
+      + apply andb_true_iff in Hs. destruct Hs as [H1 H2].
+        destruct ((c <=? it) && (tol_set || negb g) && d); simpl.
+        * apply Hc, H1.
+        * apply (IH clean); assumption.
+  Qed.
+  Lemma prog_loop_ok body k mask tol_set : scan false body = true -> forall fuel it decisions s,
+    0 < fuel \/ CoreProj s -> CoreProj (prog_loop St impute project recon update body k mask tol_set it fuel decisions s).
+  Proof.
+    intros Hb. induction fuel as [|fuel IH]; intros it decisions s H; cbn [prog_loop].
+    - destruct H as [H|H]; [lia | exact H].
+    - pose proof (run_body_ok k mask tol_set it (hd false decisions) body false s Hb) as Hr.
+      destruct (snd (run_body St impute project recon update k mask tol_set it (hd false decisions) body s)).
+      + apply Hr. discriminate.
+      + apply IH. right. apply Hr. discriminate.
+  Qed.
+  Theorem prog_run_core_projected p ik k mask tol_set n decisions s0 : prog_ok p = true -> ik = InitSvd \/ 0 < n ->
+    CoreProj (prog_run St svd_init impute project recon update p ik k mask tol_set n decisions s0).
+  Proof.
+    intros Hp H. unfold prog_ok in Hp. apply andb_true_iff in Hp. destruct Hp as [Hi Hb].
+    unfold prog_run. apply prog_loop_ok; [exact Hb|].
+    destruct H as [->|H]; [right; rewrite Hi; apply Hproject | left; exact H].
+  Qed.
+  (* the hand-written skeleton is the program hooi_prog *)
+  Lemma hooi_loop_is_prog k mask tol_set : forall fuel it decisions s,
+    hooi_loop St impute project recon update k mask tol_set it fuel decisions s =
+    prog_loop St impute project recon update (hp_body hooi_prog) k mask tol_set it fuel decisions s.
+  Proof.
+    induction fuel as [|fuel IH]; intros; cbn [hooi_loop prog_loop]; [reflexivity|].
+    cbn [hp_body hooi_prog run_body negb]. rewrite orb_false_r.
+    destruct ((2 <=? it) && tol_set && hd false decisions); cbn [fst snd]; [reflexivity | apply IH].
+  Qed.
+  Lemma hooi_run_is_prog ik k mask tol_set n decisions s0 :
+    hooi_run St svd_init impute project recon update ik k mask tol_set n decisions s0 =
+    prog_run St svd_init impute project recon update hooi_prog ik k mask tol_set n decisions s0.
+  Proof. unfold hooi_run, prog_run. rewrite hooi_loop_is_prog. destruct ik; reflexivity. Qed.
+End ProgProofs.
+(* sharpness: a program failing prog_ok has an un-projected run on the ghost state space (true = "the core is the projection") *)
+Definition ghost_prog (p : hprog) (ik : init_kind) (n : nat) (decisions : list bool) : bool :=
+  prog_run bool (fun _ => false) (fun _ => false) (fun _ => true) (fun s => s) (fun _ _ => false) p ik 1 true true n decisions false.
+Example prog_ok_examples : prog_ok hooi_prog = true /\
+  prog_ok (mkHprog true [SImpute; SProject; SSweep; SRecon; SBreakTest 2 true]) = false /\                 (* core computed before the sweep *)
+  ghost_prog (mkHprog true [SImpute; SProject; SSweep; SRecon; SBreakTest 2 true]) InitSvd 1 [] = false /\
+  prog_ok (mkHprog true [SImpute; SSweep; SBreakTest 2 true; SProject; SRecon]) = false /\                 (* break before the projection *)
+  ghost_prog (mkHprog true [SImpute; SSweep; SBreakTest 2 true; SProject; SRecon]) InitSvd 3 [false; false; true] = false /\
+  prog_ok (mkHprog false [SImpute; SSweep; SProject; SRecon; SBreakTest 2 true]) = false /\                (* SVD initialisation without the projection *)
+  ghost_prog (mkHprog false [SImpute; SSweep; SProject; SRecon; SBreakTest 2 true]) InitSvd 0 [] = false.
+Proof. vm_compute. repeat split. Qed.
